@@ -1095,8 +1095,14 @@ func (sm *StyleManager) addTOCStyles() {
 // GetStyleWithInheritance 获取具有继承属性的样式
 // 如果样式基于其他样式，会合并父样式的属性
 func (sm *StyleManager) GetStyleWithInheritance(styleID string) *Style {
+	return sm.resolveStyle(styleID, make(map[string]bool))
+}
+
+// resolveStyle 沿 basedOn 链解析样式；visiting 记录当前链上已经过的样式ID，
+// 再次遇到同一ID（basedOn 成环）时按“基础样式不存在”处理，保证解析必然终止
+func (sm *StyleManager) resolveStyle(styleID string, visiting map[string]bool) *Style {
 	style := sm.GetStyle(styleID)
-	if style == nil {
+	if style == nil || visiting[styleID] {
 		return nil
 	}
 
@@ -1106,7 +1112,8 @@ func (sm *StyleManager) GetStyleWithInheritance(styleID string) *Style {
 	}
 
 	// 递归获取基础样式
-	baseStyle := sm.GetStyleWithInheritance(style.BasedOn.Val)
+	visiting[styleID] = true
+	baseStyle := sm.resolveStyle(style.BasedOn.Val, visiting)
 	if baseStyle == nil {
 		return style
 	}
